@@ -135,6 +135,12 @@ REQ_FORMS = ["X >= {c}", "{c} <= X", "{a} < X < {b}", "{b} > X", "X < {c}", "abs
              "{c} >= abs({k} - X)"]
 
 
+FORM_KIND = ["lower_c", "lower_c", "between", "lt_b", "upper_c", "abs_c", "abs_minus_k",
+             "abs_plus_k", "abs_c", "neq", "between", "abs_plus_k", "between", "neq", "neq", "gt_a",
+             "lt_a", "abs_minus_k", "abs_minus_k", "abs_minus_k", "abs_minus_k"]
+assert len(FORM_KIND) == len(REQ_FORMS)
+
+
 @st.composite
 def rh_cases(draw):
     ncell = draw(st.integers(2, 4))
@@ -147,10 +153,46 @@ def rh_cases(draw):
     reqs = []
     for _ in range(draw(st.integers(1, 2))):
         a = _num(draw, -3, 2)
-        reqs.append({"form": draw(st.integers(0, len(REQ_FORMS) - 1)),
-                     "a": a, "b": a + _num(draw, 0.25, 3), "c": _num(draw, 0, 3),
-                     "k": _num(draw, -2, 2), "soft": draw(st.sampled_from([None, None, None, 0.5])),
-                     "deg": draw(st.booleans())})
+        form = draw(st.integers(0, len(REQ_FORMS) - 1))
+        r = {"form": form, "a": a, "b": a + _num(draw, 0.25, 3), "c": _num(draw, 0, 3),
+             "k": _num(draw, -2, 2), "soft": draw(st.sampled_from([None, None, None, 0.5])),
+             "deg": draw(st.booleans())}
+        if draw(st.booleans()):
+            # targeted constants: the requirement admits (about) exactly the relative heading
+            # d of one ordered pair of cells, so that any slip in the extracted bounds matters
+            i = draw(st.integers(0, ncell - 1))
+            j = draw(st.integers(0, ncell - 1))
+            d = cells[j]["h"] - cells[i]["h"]
+            while d > math.pi:
+                d -= math.tau
+            while d < -math.pi:
+                d += math.tau
+            d = round(d, 3)
+            w = draw(st.sampled_from([0.25, 0.5, 1.0]))
+            r["deg"] = False
+            r["target"] = [i, j]
+            kind = FORM_KIND[form]
+            if kind == "lower_c":
+                r["c"] = round(d - w, 3)
+            elif kind == "upper_c":
+                r["c"] = round(d + w, 3)
+            elif kind == "between":
+                r["a"], r["b"] = round(d - w, 3), round(d + w, 3)
+            elif kind == "abs_c":
+                r["c"] = round(abs(d) + w, 3)
+            elif kind == "abs_minus_k":
+                r["k"], r["c"] = d, w
+            elif kind == "abs_plus_k":
+                r["k"], r["c"] = -d, w
+            elif kind == "neq":
+                r["a"] = r["c"] = round(d - w, 3)
+            elif kind == "gt_a":
+                r["a"] = round(d - w, 3)
+            elif kind == "lt_a":
+                r["a"] = round(d + w, 3)
+            elif kind == "lt_b":
+                r["b"] = round(d + w, 3)
+        reqs.append(r)
     dist = draw(st.one_of(st.none(), st.integers(6, 40)))
     return {"family": "rh", "mode2D": draw(st.booleans()), "cells": cells,
             "ego": objspec(), "other": objspec(), "reqs": reqs, "dist": dist,
